@@ -22,6 +22,7 @@ RULE = (
     "empty, generated, mini or textbook model; dense histories are checked after every "
     "step, sparse ones only at the end.  Non-trivial when the step changed the raw LP or "
     "raised; distinct by (operation, raw-LP hash after the step)."
+    " Failing forms also cover identifiers beyond the solver's name length, colliding names in add_cons_vars, repeated entries, foreign reactions in objective dictionaries; detached.copy. Second workload: the repository's tests with the core invariant at every solver.optimize()."  # third-session additions
 )
 ASSUMPTIONS = [
     "columns/rows are matched through the public accessors forward_variable/reverse_variable/constraint",
